@@ -16,6 +16,7 @@ SUCCESSFUL" set and its own LRU recency model.
 Usage:  /verif/.venv/bin/python bounded/c17_status.py [quick|thorough] [seed]
 """
 import sys
+sys.dont_write_bytecode = True      # never create __pycache__ under /repo
 sys.path.insert(0, '/repo')
 
 import warnings
@@ -83,9 +84,12 @@ SPACES = {
     # a dispatch and a non dispatch event are always present)
     'red128_2': _space(('push', 'workflow_dispatch'), _all_pairs(STATUSES),
                        (1, 2)),
+    'red96_2': _space(('push', 'workflow_dispatch'),
+                      _all_pairs(('completed', 'in_progress', 'queued')),
+                      (1, 2)),
     'pairs40_2': _space(('push', 'workflow_dispatch'), PAIRS5, (1, 2)),
     'pairs60_3': _space(('push', 'workflow_dispatch'), PAIRS5, (1, 2, 3)),
-    'pairs36_3': _space(('push', 'workflow_dispatch'), PAIRS3, (1, 2, 3)),
+    'pairs24_3': _space(('push', 'workflow_dispatch'), PAIRS3[:2], (1, 2, 3)),
 }
 SPACE_DESC = {
     'full2': 'event{push,pull_request,workflow_dispatch} x status{completed,'
@@ -94,14 +98,17 @@ SPACE_DESC = {
     'full3': 'as full2 with workflow_id{1,2,3} (288/run)',
     'red128_2': 'event{push,workflow_dispatch} x 4 statuses x 4 conclusions '
                 'x workflow_id{1,2} x 2 branches (128/run)',
+    'red96_2': 'event{push,workflow_dispatch} x status{completed,in_progress,'
+               'queued} x 4 conclusions x workflow_id{1,2} x 2 branches '
+               '(96/run)',
     'pairs40_2': 'event{push,workflow_dispatch} x (status,conclusion) in '
                  '{completed/success,completed/failure,completed/cancelled,'
                  'in_progress/none,queued/none} x workflow_id{1,2} x 2 '
                  'branches (40/run)',
     'pairs60_3': 'as pairs40_2 with workflow_id{1,2,3} (60/run)',
-    'pairs36_3': 'event{push,workflow_dispatch} x {completed/success,'
-                 'completed/failure,in_progress/none} x workflow_id{1,2,3} x '
-                 '2 branches (36/run)',
+    'pairs24_3': 'event{push,workflow_dispatch} x {completed/success,'
+                 'completed/failure} x workflow_id{1,2,3} x 2 branches '
+                 '(24/run)',
 }
 
 
@@ -267,7 +274,7 @@ def check_aggregation(runs, state_fn=real_state_fast):
             info = 'allowed_but_%s:other' % got
     elif some:
         info = 'allowed_under_some_tiebreak_only_but_%s' % got
-    return got, failure, info
+    return got, failure, info, no_run
 
 
 class _Acc:
@@ -279,6 +286,8 @@ class _Acc:
         self.sigs = {}       # sig -> [count, size, failure dict]
         self.infos = {}      # info -> [count, size, example]
         self.clauses = {}    # clause -> [checked, nonvacuous, failed]
+        self.a_counts = [0, 0, 0, 0, 0]
+        self.sig_sizes = {}
         self.samples = []
         self.extra = {}
 
@@ -307,32 +316,45 @@ class _Acc:
                 cur[1], cur[2] = size, example
 
     def result(self):
+        a = self.a_counts
+        if a[0]:
+            self.clauses[A_CLAUSES[0]] = [a[0], a[1], a[2]]
+        if a[3]:
+            self.clauses[A_CLAUSES[1]] = [a[3], a[3], a[4]]
         return {'cases': self.cases, 'nontrivial': self.nontrivial,
                 'sigs': self.sigs, 'infos': self.infos,
                 'clauses': self.clauses, 'samples': self.samples,
-                'extra': self.extra}
+                'extra': self.extra,
+                'sig_sizes': {k: sorted(v)
+                              for k, v in self.sig_sizes.items()}}
 
 
 def _a_record(acc, runs, prefix, state_fn=real_state_fast):
-    got, failure, info = check_aggregation(runs, state_fn)
+    got, failure, info, no_run = check_aggregation(runs, state_fn)
     acc.cases += 1
-    succ = got == 'SUCCESSFUL'
-    if succ:
+    cl = acc.a_counts
+    cl[0] += 1                      # implication checked
+    if got == 'SUCCESSFUL':
         acc.nontrivial += 1
-    no_run = not any(r[0] != 'workflow_dispatch' for r in runs)
-    acc.clause('successful_only_if_some_branch_all_success', succ,
-               failure is not None and failure[0] == A_CLAUSES[0])
+        cl[1] += 1                  # ... not vacuously
     if no_run:
-        acc.clause('never_successful_without_runs', True,
-                   failure is not None and failure[0] == A_CLAUSES[1])
+        cl[3] += 1                  # never_successful_without_runs checked
     if failure is not None:
         clause, expected = failure
+        cl[2 if clause == A_CLAUSES[0] else 4] += 1
         sig = _a_signature(runs, clause, prefix)
         acc.fail(sig, len(runs), {
             'case': _a_case(runs), 'clause': clause, 'signature': sig,
             'expected': expected, 'got': got})
     elif info is not None:
-        acc.info(prefix + info, len(runs), _a_case(runs))
+        key = prefix + info
+        cur = acc.infos.get(key)
+        if cur is None:
+            acc.infos[key] = [1, len(runs), _a_case(runs)]
+        else:
+            cur[0] += 1
+            if len(runs) < cur[1]:
+                cur[1], cur[2] = len(runs), _a_case(runs)
     return got, failure
 
 
@@ -409,20 +431,20 @@ def _tasks_a(tier, seed):
     if tier == 'thorough':
         plan.append(('2wf', 3, 'full2', enum('', 'full2', 3), 'exhaustive'))
         plan.append(('3wf', 3, 'full3', enum(T, 'full3', 3), 'exhaustive'))
-        plan.append(('2wf', 4, 'red128_2', enum('', 'red128_2', 4),
-                     'reduced'))
+        plan.append(('2wf', 4, 'red96_2', enum('', 'red96_2', 4), 'reduced'))
         plan.append(('3wf', 4, 'pairs60_3', enum(T, 'pairs60_3', 4),
                      'reduced'))
         rand = [('', 'full2', 4, 4000000), (T, 'full3', 4, 4000000)]
     else:
-        plan.append(('2wf', 3, 'full2', enum('', 'full2', 3), 'exhaustive'))
+        plan.append(('2wf', 3, 'red128_2', enum('', 'red128_2', 3),
+                     'reduced'))
         plan.append(('2wf', 4, 'pairs40_2', enum('', 'pairs40_2', 4),
                      'reduced'))
         plan.append(('3wf', 3, 'pairs60_3', enum(T, 'pairs60_3', 3),
                      'reduced'))
-        plan.append(('3wf', 4, 'pairs36_3', enum(T, 'pairs36_3', 4),
+        plan.append(('3wf', 4, 'pairs24_3', enum(T, 'pairs24_3', 4),
                      'reduced'))
-        rand = [('', 'full2', 4, 600000),
+        rand = [('', 'full2', 3, 300000), ('', 'full2', 4, 400000),
                 (T, 'full3', 3, 150000), (T, 'full3', 4, 150000)]
     for i, (prefix, space_name, k, n) in enumerate(rand):
         chunk = 50000
@@ -936,6 +958,7 @@ def _task_b(task):
                                                         clause)
             mans = world.run_memo(init, ops_min)
             c, e, g = _final_verdict(variant, size, init, ops_min, mans)
+            acc.sig_sizes.setdefault(sig, set()).add(size)
             acc.fail(sig, len(ops_min), {
                 'case': _b_case(variant, size, init, ops_min),
                 'clause': clause, 'signature': sig, 'expected': e, 'got': g,
@@ -1041,6 +1064,8 @@ def _tasks_b(tier, seed):
 # ==========================================================================
 def _run_task(task):
     kind = task[0]
+    if kind == 'B_chunk':
+        return [_run_task(t) for t in task[1]]
     if kind == 'A':
         res = _task_a_enum(task)
         res['part'] = 'A3' if task[1] else 'A2'
@@ -1072,20 +1097,37 @@ def run(tier: str = 'quick', seed: int = 0, jobs: int = 16) -> dict:
     tasks_a, plan_a = _tasks_a(tier, seed)
     tasks_b, plan_b = _tasks_b(tier, seed)
     # B tasks of one (variant, size) share a per process memo of real
-    # transitions: keep them grouped; biggest first.
-    tasks = sorted(tasks_b, key=lambda t: -_task_weight(t)) + \
-        sorted(tasks_a, key=lambda t: -_task_weight(t))
+    # transitions (the expensive part): they are handed out as a few
+    # contiguous chunks per world; the small A tasks fill the other workers.
+    worlds = {}
+    for t in tasks_b:
+        worlds.setdefault((t[1], t[2]), []).append(t)
+    chunks = []
+    for ts in worlds.values():
+        ts.sort(key=lambda t: (t[5], str(t[3])))
+        pieces = 3 if jobs > 1 else 1
+        for i in range(pieces):
+            part = ts[i::pieces]
+            if part:
+                chunks.append(('B_chunk', part))
+    tasks_a.sort(key=lambda t: -_task_weight(t))
     if jobs > 1:
         ctx = mp.get_context('fork')
         with ctx.Pool(jobs) as pool:
-            results = list(pool.imap_unordered(_run_task, tasks,
+            rb = pool.map_async(_run_task, chunks, chunksize=1)
+            results = list(pool.imap_unordered(_run_task, tasks_a,
                                                chunksize=4))
+            for lst in rb.get():
+                results.extend(lst)
     else:
-        results = [_run_task(t) for t in tasks]
+        results = [_run_task(t) for t in tasks_a]
+        for c in chunks:
+            results.extend(_run_task(c))
 
     cases = {}
     nontrivial = 0
     sigs, infos, clauses, extra = {}, {}, {}, {}
+    sig_sizes = {}
     samples = []
     for res in results:
         cases[res['part']] = cases.get(res['part'], 0) + res['cases']
@@ -1113,6 +1155,8 @@ def run(tier: str = 'quick', seed: int = 0, jobs: int = 16) -> dict:
             cur[2] += c
         for k, v in res['extra'].items():
             extra[k] = extra.get(k, 0) + v
+        for k, v in res.get('sig_sizes', {}).items():
+            sig_sizes.setdefault(k, set()).update(v)
         samples.extend(res['samples'])
 
     # every reported example is re-run from scratch on the real code
@@ -1124,6 +1168,8 @@ def run(tier: str = 'quick', seed: int = 0, jobs: int = 16) -> dict:
         rep = replay(failure['case'])
         failure = dict(failure, count=count,
                        replay_confirmed=(not rep['ok']))
+        if sig in sig_sizes:
+            failure['lru_sizes_with_this_failure'] = sorted(sig_sizes[sig])
         if rep['ok']:
             unconfirmed += 1
         if len(failures) < 50:
@@ -1251,7 +1297,7 @@ def replay(case: dict) -> dict:
         runs = _a_runs_of(case)
         out = None
         for fn in (real_state_schema, real_state_fast):
-            got, failure, info = check_aggregation(runs, fn)
+            got, failure, info, _ = check_aggregation(runs, fn)
             if failure is not None:
                 return {'ok': False, 'clause': failure[0],
                         'expected': failure[1], 'got': got}
